@@ -16,9 +16,11 @@ import (
 
 // Ctx is what a property check gets.
 type Ctx struct {
-	P    *an.Prog
-	R    *report.Report
-	Tier string
+	P     *an.Prog
+	R     *report.Report
+	Tier  string
+	Repo  string
+	Verif string
 }
 
 // Registry maps property id -> check.
